@@ -85,13 +85,19 @@ func widthOK(d decor.Decorator, st decor.Statistics) string {
 }
 
 func checkEwma(c *DecorCase) string {
-	for _, depth := range []int{0, 1, 3} {
+	for li, depth := range []int{0, 1, 3} {
 		rs, re := &recAvg{}, &recAvg{}
 		speed := decor.MovingAverageSpeed(decor.SizeB1024(0), "% .1f", rs)
 		eta := decor.MovingAverageETA(decor.ET_STYLE_GO, re, nil)
 		real := decor.EwmaSpeed(decor.SizeB1000(0), "% d", 30)
 		p := mpb.New(mpb.WithOutput(io.Discard))
-		bar := p.AddBar(0, mpb.AppendDecorators(wrapN(speed, depth), wrapN(eta, depth), wrapN(real, depth)))
+		// the decorators sit on either side of the bar, the two options in either order
+		opts := [][]mpb.BarOption{
+			{mpb.AppendDecorators(wrapN(speed, depth), wrapN(eta, depth), wrapN(real, depth))},
+			{mpb.AppendDecorators(wrapN(speed, depth), wrapN(real, depth)), mpb.PrependDecorators(decor.Name("x"), wrapN(eta, depth))},
+			{mpb.PrependDecorators(wrapN(speed, depth)), mpb.AppendDecorators(wrapN(eta, depth), wrapN(real, depth))},
+		}[li]
+		bar := p.AddBar(0, opts...)
 		for _, s := range c.C.Samples {
 			bar.EwmaIncrInt64(s.N, time.Duration(s.Dur)*time.Millisecond)
 		}
